@@ -366,7 +366,10 @@ func (bf *buffer) ReadPeek(n int) ([]byte, error) {
 // wait until there's enough. This differs from ReadPeek or Readin that Peek will
 // return whatever is available and won't wait for full count.
 func (bf *buffer) ReadWait(n int) ([]byte, error) {
-	if int64(n) > bf.size {
+	// The receiving side (ReadFrom) takes room a block at a time and waits until
+	// a whole block is free. A wait for n bytes can therefore only end if a block
+	// still fits beside them; more than that never arrives.
+	if int64(n) > bf.size-defaultReadBlockSize {
 		return nil, bufio.ErrBufferFull
 	}
 
